@@ -976,6 +976,68 @@ func runMemFS(c *FsCase, st *Stats) *Violation {
 			h = h.Str(fmt.Sprint(err == nil))
 		}
 	}
+	// files that load files, end to end through (load-file ...): every nested
+	// relative location resolves against the directory of the file that
+	// contains the call, which the library knows only through the true
+	// location it reported for that file
+	entries := []string{"root/a/chain.lisp", "root/a/chain-up.lisp", "root/a/chain-out.lisp", "root/a/chain2.lisp", "root/call.lisp", "root/a/b/deep.lisp",
+		"root/a/../a/chain2.lisp", "./root/call.lisp", "root//a/chain.lisp"}
+	if c.OnlyVia == "load-file" {
+		entries = []string{c.OnlyLoc}
+	} else if c.OnlyLoc != "" {
+		entries = nil
+	}
+	for _, entry := range entries {
+		for _, viaLoader := range []bool{false, true} {
+			m := &memFS{files: map[string]string{}}
+			for k, v := range files {
+				m.files[k] = v
+			}
+			lib := &lisp.FSLibrary{FS: m}
+			w, err := NewWorld(Knobs{})
+			if err != nil {
+				return Violf("harness", "%v", err)
+			}
+			w.RT.Library = lib
+			start := entry
+			if viaLoader {
+				// entered from a file two directories down, by a relative location
+				m.files["root/a/zz-loader.lisp"] = fmt.Sprintf("(sim:mark \"loader\")\n(load-file %s)\n", LispString("../../"+entry))
+				start = "root/a/zz-loader.lisp"
+			}
+			st.Runs++
+			out := w.Call(func() *lisp.LVal { return w.Env.LoadFile(start) })
+			fail := func(oracle, format string, a ...any) *Violation {
+				c.hintLoc, c.hintLoader, c.hintVia = entry, "", "load-file"
+				return Violf(oracle, "fs.FS library, (load-file %q) (through a loader file: %v): %s", entry, viaLoader, fmt.Sprintf(format, a...))
+			}
+			if out.GoPanic != "" {
+				return fail("go-panic-escaped", "%s", out.GoPanic)
+			}
+			var evaluated []string
+			for _, mk := range w.Marks {
+				mk = strings.Trim(mk, "\"")
+				if mk != "loader" {
+					evaluated = append(evaluated, mk)
+				}
+			}
+			first := path.Clean(entry)
+			if _, ok := files[first]; !ok {
+				continue
+			}
+			want, wfail := chainSim(first, func(from, l string) (string, bool) {
+				t := path.Clean(path.Join(path.Dir(from), l))
+				_, ok := files[t]
+				return t, ok && fs.ValidPath(t)
+			})
+			if wfail != out.IsErr || strings.Join(want, " ") != strings.Join(evaluated, " ") {
+				return fail("nested-load-differs", "files evaluated, in order: %v (error: %v); resolving each nested location against the directory of the file that contains the call gives %v (fails: %v)", evaluated, out.IsErr, want, wfail)
+			}
+			st.Inc("reach_nested_load_from_loaded_file")
+			st.Inc("loads_via_load_file")
+			h = h.Str(strings.Join(evaluated, " "))
+		}
+	}
 	st.NoteHash(h, true)
 	return nil
 }
